@@ -28,9 +28,9 @@ type c09Case struct {
 	Digits       int    `json:"digits"`
 	Algo         int    `json:"algo"`
 	Skew         int    `json:"skew"`
-	WinPos       int    `json:"window_position"`    // which window code the wrong codes are derived from (-skew..skew)
-	Spelling     int    `json:"spelling,omitempty"` // how the submitted wrong codes are written, see c09Spellings
-	Sep          string `json:"separator,omitempty"`   // grouped spelling: this separator is inserted ...
+	WinPos       int    `json:"window_position"`        // which window code the wrong codes are derived from (-skew..skew)
+	Spelling     int    `json:"spelling,omitempty"`     // how the submitted wrong codes are written, see c09Spellings
+	Sep          string `json:"separator,omitempty"`    // grouped spelling: this separator is inserted ...
 	SepAt        []int  `json:"separator_at,omitempty"` // ... before each of these digit indexes (ascending; len(code) = after the last digit)
 }
 
